@@ -28,7 +28,7 @@ type CaseC06 struct {
 
 func init() { register("C06", checkC06) }
 
-var jsAlphabet = []string{"a", "<", ">", "&", "\\", "\"", "\\u003c", "\\u003e", "\\u0026", " ", "\x01", "\n", "\t", "é", "世", "/", "u003c", "{", "}", " ", "\\\\", "\\\"", "\x7f", "]", "["}
+var jsAlphabet = []string{"a", "<", ">", "&", "\\", "\"", "\\u003c", "\\u003e", "\\u0026", " ", "\x01", "\n", "\t", "é", "世", "/", "u003c", "{", "}", " ", "\\\\", "\\\"", "\x7f", "]", "[", "\\u0008", "\\u000c", "\\u000a", "\\u001f", "\\u2028", "\\u0022", "\\b", "\\f", "\\n", "\\u005c", "\b", "\f"}
 
 func genJStr(t *rapid.T, label string) string {
 	n := rapid.IntRange(0, 6).Draw(t, label+"n")
@@ -208,6 +208,11 @@ func checkC06(c CaseC06, info *Info) *Failure {
 		}
 		if err != nil || !bytes.Equal(w.Bytes(), b) || !bytes.Equal(raw, b) {
 			return failf("writer-mismatch", "writer wrote %q raw %q err %v; Json returned %q", w.Bytes(), raw, err, b)
+		}
+		(mxj.Map{"later": "call"}).JsonWriterRaw(&bytes.Buffer{}, c.Safe)
+		(mxj.Map{"later": []interface{}{"call", 2.5}}).Json(c.Safe)
+		if !bytes.Equal(raw, b) {
+			return failf("result-overwritten-by-later-call", "the bytes returned by the Raw writer changed after a later encoding: %q, expected %q", raw, b)
 		}
 		if !c.Indent {
 			jb, jerr := j2x.MapToJson(subject, c.Safe)
